@@ -102,8 +102,8 @@ def targets(ctx):
                         try:
                             if q.name != first or q.value != v or q != v or type(q) is not E:
                                 bad = f"{q.name!r}/{q.value!r}"
-                        except AttributeError as e:
-                            bad = f"number {int(q)} without name / value ({e})"
+                        except (AttributeError, TypeError, ValueError) as e:
+                            bad = f"{q!r:.80}: not a member with name / value ({type(e).__name__}: {e})"
                     if bad:
                         out.append(("pickle_member", f"protocol {proto}: pickled E({v}) -> {bad}"))
                         break
@@ -354,7 +354,7 @@ def targets(ctx):
                 out.append(("plugin_member_name", f"{ename}({num}).name={mem.name!r} declared {first!r}"))
             if E[mem.name] is not mem or E.from_string(mem.name) is not mem:
                 out.append(("plugin_lookup_by_name", f"{ename}[{mem.name!r}]"))
-            if copy.deepcopy(mem) is not mem or pickle.loads(pickle.dumps(mem)).value != num:
+            if copy.deepcopy(mem) is not mem or getattr(pickle.loads(pickle.dumps(mem)), "value", "<no value>") != num or getattr(pickle.loads(pickle.dumps(mem)), "name", "<no name>") != mem.name:
                 out.append(("plugin_copy_pickle", f"{mem!r}"))
         if len({m.value for m in E}) != len(seen):
             out.append(("plugin_member_set", f"{list(E)!r}"))
